@@ -32,6 +32,10 @@ theorem C16_lock_facts :
     (["AssignSeats", "RandomAssignSeats", "RemoveSeats", "JoinPlayers", "UpdatePlayerHasChips", "InitPositions", "RotatePositions"].all
       (fun m => Facts.smLocked.contains m)) = true := by decide
 
+/-- … and none of them lets the lock go in between: the opening `Lock(); defer Unlock()` is the only mention of the engine
+lock in the body of every locked `tableEngine` method (regenerated from the source) -/
+theorem C16_no_lock_window_fact : Facts.teLockWindows = [] := by decide
+
 /-- **C16 — no seat is given twice**: whatever order the lock imposes, a successful `AssignSeats` leaves every occupied
 seat with its occupant (it only fills seats that were empty), and a refused one changes nothing. -/
 theorem C16_no_double_booking (st : State) (b : List (Nat × Int)) :
